@@ -1,6 +1,8 @@
 package main
 
 import (
+	"os"
+	"runtime/debug"
 	"fmt"
 	"go/types"
 	"math/big"
@@ -247,6 +249,10 @@ type Machine struct {
 	ctxParent map[int]*Iface
 	runeSrc   map[int]*runeInfo
 	refute    bool
+	lastFn    *ssa.Function
+	lastIns   ssa.Instruction
+	synth     map[string]*ssa.Function
+	knownCode map[int]*ssa.Function
 	assignLocs []*Ptr
 	ownedChans map[int]bool
 	guardedMaps map[int]bool
@@ -379,6 +385,11 @@ func (m *Machine) ptrLeaves(p *Ptr) []leaf {
 func (m *Machine) isElemMem(p *Ptr) bool { return strings.HasPrefix(p.Mem, "elem<") }
 
 func (m *Machine) Load(st *State, p *Ptr) Value {
+	if p.Idx == nil && p.Path == "" {
+		if v, ok := st.ghostCells[p.Ref.id]; ok {
+			return v // engine-level cell (ghost value or interior pointer captured by a closure)
+		}
+	}
 	if isSeqType(p.Elem) {
 		if v, ok := st.ghostCells[p.Ref.id]; ok && p.Idx == nil && p.Path == "" {
 			return v
@@ -425,7 +436,11 @@ func (m *Machine) Store(st *State, p *Ptr, v Value) {
 	if st.pure && !m.isFreshRef(st, p.Ref) {
 		panic(unsupported("store to pre-existing memory in pure (ghost) code"))
 	}
-	if isSeqType(p.Elem) && p.Idx == nil && p.Path == "" {
+	interior := false
+	if ip, ok := v.(*Ptr); ok && (ip.Idx != nil || ip.Path != "") {
+		interior = true
+	}
+	if (isSeqType(p.Elem) || interior) && p.Idx == nil && p.Path == "" && m.isFreshRef(st, p.Ref) {
 		nc := make(map[int]Value, len(st.ghostCells)+1)
 		for k, x := range st.ghostCells {
 			nc[k] = x
@@ -678,6 +693,9 @@ func (st *State) assume(t *Term) {
 	}
 	if t.IsFalse() {
 		st.dead = true
+		if debugDead {
+			fmt.Fprintf(os.Stderr, "path dies on assume(false): trail=%v\n%s\n", st.trail, debug.Stack())
+		}
 	}
 	st.pc = append(st.pc, t)
 }
@@ -891,3 +909,5 @@ func (m *Machine) trace(st *State, s string) {
 		st.trail = append(st.trail, s)
 	}
 }
+
+var debugDead = os.Getenv("GOVC_DEBUGDEAD") != ""
